@@ -228,8 +228,13 @@ def run_model(mode, lines):
 
 def diff_shard(binp, mode, seed, count, extra_args=()):
     """run one shard of a sequential differential; returns dict with counts, mismatches, monitor failures"""
-    p = subprocess.run([binp, mode, str(seed), str(count), *extra_args], stdout=subprocess.PIPE, stderr=subprocess.PIPE, text=True)
-    out = {"cases": 0, "mismatch": [], "monfail": [], "crash": None, "reqs": [], "impls": []}
+    p = subprocess.run([binp, mode, str(seed), str(count), *extra_args], stdout=subprocess.PIPE, stderr=subprocess.PIPE, text=True,
+                       env=dict(os.environ, SEQDIFF_STATS="1"))
+    out = {"cases": 0, "mismatch": [], "monfail": [], "crash": None, "reqs": [], "impls": [], "stats": {}}
+    for line in p.stderr.split("\n"):  # generator statistics: which API routes / states the cases went through
+        mm = re.match(r"STAT (.*) (\d+)$", line)
+        if mm:
+            out["stats"][mm.group(1)] = out["stats"].get(mm.group(1), 0) + int(mm.group(2))
     if p.returncode != 0:
         out["crash"] = f"harness exit {p.returncode}: {p.stderr[-1500:]}"
     reqs, impls, mons = [], [], []
@@ -263,11 +268,13 @@ def run_diff(res, binp, mode, seed, total, shards=None, extra_args=(), tag=None,
     with ThreadPoolExecutor(max_workers=shards) as ex:
         outs = list(ex.map(lambda k: diff_shard(binp, mode, seed * 1000 + k, per, extra_args), range(shards)))
     label = label or mode
-    agg = {"cases": 0, "distinct": 0, "mismatches": 0, "monitor_failures": 0}
+    agg = {"cases": 0, "distinct": 0, "mismatches": 0, "monitor_failures": 0, "stats": {}}
     seen = set()
     kinds = {}
     for o in outs:
         agg["cases"] += o["cases"]
+        for k, v in o["stats"].items():
+            agg["stats"][k] = agg["stats"].get(k, 0) + v
         for r, im in zip(o["reqs"], o["impls"]):
             seen.add(r)
             k = r.split(" ")[0] + ":" + ("err" if im == "err" else "ok")
